@@ -93,7 +93,7 @@ class Env:
         return False, None
 
 
-_BUILTIN_NAMES = {'type', 'float', 'object', 'len', 'range', 'list', 'dict', 'tuple', 'set', 'sorted', 'filter', 'map', 'enumerate', 'next', 'iter', 'min',
+_BUILTIN_NAMES = {'type', 'float', 'object', 'ord', 'chr', 'len', 'range', 'list', 'dict', 'tuple', 'set', 'sorted', 'filter', 'map', 'enumerate', 'next', 'iter', 'min',
                   'max', 'any', 'all', 'isinstance', 'str', 'int', 'bool', 'abs', 'sum', 'reversed', 'zip', 'hasattr', 'getattr',
                   'print'}
 _STR_METHODS = {'strip', 'lstrip', 'rstrip', 'lower', 'upper', 'startswith', 'endswith', 'find', 'rfind', 'index', 'count',
@@ -108,6 +108,8 @@ class Interp:
         self.hooks = hooks or {}        # {'regex.finditer': callable(interp, args, kwargs), 'Qual.name': ...}
         self.budget = budget
         self.where = where
+        self._defaults = {}      # id(function node) -> default values, evaluated once as Python does (shared mutable defaults!)
+        self._cattrs = {}        # (class qual, name) -> class-level attribute value, evaluated once (shared class state)
 
     # ---- failure
     def fail(self, node, what):
@@ -144,7 +146,9 @@ class Interp:
                 j = i - (len(params) - len(defaults))
                 if j < 0:
                     self.fail(node or fn, 'missing argument %s of %s' % (p, fn.name))
-                env.vars[p] = self.ev(defaults[j], Env(), ref.mod, ref.owner)
+                if id(fn) not in self._defaults:
+                    self._defaults[id(fn)] = [self.ev(d, Env(), ref.mod, ref.owner) for d in defaults]
+                env.vars[p] = self._defaults[id(fn)][j]
         if len(vals) > len(params):
             self.fail(node or fn, 'too many arguments for ' + fn.name)
         try:
@@ -325,6 +329,11 @@ class Interp:
                 self.assign(t, x, env, mod, cls)
         elif isinstance(tgt, ast.Attribute):
             o = self.ev(tgt.value, env, mod, cls)
+            if isinstance(o, ClassRef):
+                self._cattrs[(o.cls.qual, self.mangle(tgt.attr, cls))] = v
+                if self.mangle(tgt.attr, cls) not in o.cls.attrs:
+                    self.fail(tgt, 'new class attribute %s.%s created at run time' % (o.cls.name, tgt.attr))
+                return
             if not isinstance(o, Obj):
                 self.fail(tgt, 'attribute store on %r' % (o,))
             name = self.mangle(tgt.attr, cls)
@@ -446,10 +455,16 @@ class Interp:
         """class-level attribute / method of an indexed class"""
         for k in self.idx.mro(c):
             if name in k.attrs:
-                return True, self.ev(k.attrs[name], Env(), k.mod, k)
+                return True, self._class_value(k, name)
             if name in k.methods:
                 return True, FuncRef(k.mod, k.methods[name], k)
         return False, None
+
+    def _class_value(self, k, name):
+        key = (k.qual, name)
+        if key not in self._cattrs:
+            self._cattrs[key] = self.ev(k.attrs[name], Env(), k.mod, k)
+        return self._cattrs[key]
 
     def getattr(self, o, name, node, cls):
         if isinstance(o, Obj):
@@ -466,7 +481,7 @@ class Interp:
                             return self.call_function(FuncRef(k.mod, fn, k), [], {}, node, selfobj=o)
                         return Bound(o, FuncRef(k.mod, fn, k))
                     if nm in k.attrs:
-                        return self.ev(k.attrs[nm], Env(), k.mod, k)
+                        return self._class_value(k, nm)
             raise PyExc('AttributeError: %s' % name)
         if isinstance(o, ClassRef):
             ok, v = self.class_attr(o.cls, self.mangle(name, cls), node)
@@ -485,6 +500,8 @@ class Interp:
             return ModRef('%s.%s' % (o.name, name))
         if isinstance(o, (str, list, dict)):
             return ('method', o, name)
+        if isinstance(o, tuple) and len(o) == 2 and o[0] == 'builtin' and o[1] == 'str' and name in _STR_METHODS:
+            return ('strfn', name)
         self.fail(node, 'attribute %s of %r' % (name, o))
 
     # ---- expressions
@@ -653,6 +670,10 @@ class Interp:
             self.fail(e, 'call of %s.%s without a hook' % (f[1], f[2]))
         if isinstance(f, tuple) and f and f[0] == 'method':
             return self.method(f[1], f[2], args, kwargs, e)
+        if isinstance(f, tuple) and f and f[0] == 'strfn':
+            if not args or not isinstance(args[0], str):
+                raise PyExc('TypeError: str.%s needs a string' % f[1])
+            return self.method(args[0], f[1], args[1:], kwargs, e)
         return self.call_value(f, args, kwargs, e)
 
     def deepcopy(self, v, memo):
@@ -808,6 +829,10 @@ class Interp:
                 return int(args[0])
             elif name == 'bool' and len(args) == 1:
                 return self.truth(args[0])
+            elif name == 'ord' and len(args) == 1 and isinstance(args[0], str) and len(args[0]) == 1:
+                return ord(args[0])
+            elif name == 'chr' and len(args) == 1 and isinstance(args[0], int):
+                return chr(args[0])
             elif name == 'float' and len(args) == 1 and isinstance(args[0], (str, int, float, bool)):
                 return float(args[0])
             elif name == 'reversed' and len(args) == 1:
